@@ -2,6 +2,7 @@ pub mod api;
 pub mod c01;
 pub mod c02;
 pub mod c03;
+pub mod c05;
 pub mod c11;
 pub mod c12;
 pub mod routes;
